@@ -508,7 +508,11 @@ fn judge(cx: &mut Ctx, sub: &Subject<'_>, user: &[i32], out: &[u8], tuple: &[i16
                     // the bounding box of a transformed component is rounding- and engine-dependent:
                     // only the identity where nothing varies is judged
                     if !gid_moves(vf, gid, coords) {
-                        if olsb != lsb0 {
+                        if (olsb as i32 - lsb0 as i32).abs() == 1 {
+                            // one unit: the rounding convention of the stored bounding box of a
+                            // scaled component (floor / round, f32 / exact) decides this; not judged
+                            cx.class("not-judged:lsb-of-transformed-composite-off-by-one");
+                        } else if olsb != lsb0 {
                             let sig = if has_skewed_component(&vf.glyphs, gid, 0) { "lsb-changed-without-delta:rotated-or-skewed-component" } else { "lsb-changed-without-delta:scaled-component" };
                             cx.violation("default-identity", sig, gw(format!("lsb {} became {} although nothing in the glyph varies here", lsb0, olsb), vec![("glyphs", J::s(format!("{:?}", vf.glyphs).chars().take(3000).collect::<String>()))]));
                         } else {
